@@ -49,3 +49,9 @@ _p("C18", "proof",
    "every combination of geometry class, fill, stroke, display/style and symbolic opacities / stroke width / area, and shown equivalent to the paint "
    "specification; remove_empty_subpaths/subpaths are shown to judge each subpath with its path's own paint and to leave kept subpaths in place.",
    [PATHOPS, BRIDGE, CPY])
+
+_p("C20", "proof",
+   "affine_between and _round are executed symbolically with _try_affine opaque and shown to return only matrices that _try_affine accepted for the "
+   "two shapes at the caller's tolerance (or the identity for almost-equal shapes); almost_equals, _affine_callback (per command family), the "
+   "translation and identity cases are proved for symbolic coordinates. The arc case of _affine_callback is a recorded finding.",
+   [BRIDGE, CPY, MATH])
